@@ -227,3 +227,107 @@ func sortedKeys[V any](m map[string]V) []string {
 	sort.Strings(ks)
 	return ks
 }
+
+// ---------------------------------------------------------------------------------------------
+// World declarations, pruned and canonically ordered per query
+// ---------------------------------------------------------------------------------------------
+
+var smtBuiltin = map[string]bool{"Int": true, "Real": true, "Bool": true, "Array": true, "declare-fun": true, "declare-sort": true,
+	"declare-datatypes": true, "define-fun": true, "0": true}
+
+func smtTokens(s string, f func(tok string)) {
+	i := 0
+	for i < len(s) {
+		c := s[i]
+		if c == '(' || c == ')' || c == ' ' || c == '\n' || c == '\t' {
+			i++
+			continue
+		}
+		j := i
+		for j < len(s) && s[j] != '(' && s[j] != ')' && s[j] != ' ' && s[j] != '\n' && s[j] != '\t' {
+			j++
+		}
+		f(s[i:j])
+		i = j
+	}
+}
+
+// prunedDump returns the world declarations a query body needs (closed under the sorts and symbols the declarations
+// themselves mention), in an order that depends only on that set: the text of a query must not depend on which other
+// units were processed earlier in the run (solver heuristics are sensitive to declaration order).
+func (d *Decls) prunedDump(body string) string {
+	// symbol -> declaring entry
+	owner := map[string]string{}
+	for _, n := range d.order {
+		owner[n] = n
+	}
+	for _, n := range d.order {
+		t := d.text[n]
+		if strings.HasPrefix(t, "(declare-datatypes") {
+			smtTokens(t, func(tok string) {
+				if smtBuiltin[tok] {
+					return
+				}
+				if _, ok := d.text[tok]; ok {
+					return
+				}
+				if _, ok := owner[tok]; !ok {
+					owner[tok] = n
+				}
+			})
+		}
+	}
+	need := map[string]bool{}
+	var work []string
+	mark := func(tok string) {
+		if o, ok := owner[tok]; ok && !need[o] {
+			need[o] = true
+			work = append(work, o)
+		}
+	}
+	smtTokens(body, mark)
+	deps := map[string][]string{}
+	for len(work) > 0 {
+		n := work[len(work)-1]
+		work = work[:len(work)-1]
+		smtTokens(d.text[n], func(tok string) {
+			if o, ok := owner[tok]; ok && o != n {
+				deps[n] = append(deps[n], o)
+				mark(tok)
+			}
+		})
+	}
+	names := make([]string, 0, len(need))
+	for n := range need {
+		names = append(names, n)
+	}
+	sort.Strings(names)
+	done := map[string]bool{}
+	var b strings.Builder
+	for len(done) < len(names) {
+		progress := false
+		for _, n := range names {
+			if done[n] {
+				continue
+			}
+			ready := true
+			for _, dp := range deps[n] {
+				if !done[dp] {
+					ready = false
+					break
+				}
+			}
+			if ready {
+				done[n] = true
+				progress = true
+				b.WriteString(d.text[n])
+				b.WriteString("\n")
+				break
+			}
+		}
+		if !progress {
+			panic("qv internal error: cyclic world declarations")
+		}
+	}
+	return b.String()
+}
